@@ -2,6 +2,7 @@
 use crate::report::Report;
 use crate::rng::Rng;
 
+pub mod c01;
 pub mod c03;
 pub mod c04;
 pub mod c09;
@@ -46,6 +47,7 @@ impl Ctx {
 
 pub async fn dispatch(prop: &str, ctx: &Ctx, rep: &mut Report) -> bool {
     match prop {
+        "C01" => c01::run(ctx, rep).await,
         "C03" => c03::run(ctx, rep).await,
         "C04" => c04::run(ctx, rep).await,
         "C09" => c09::run(ctx, rep).await,
